@@ -375,8 +375,14 @@ PROPS["C12"] = dict(
     prefix="c12_",
     post=_c12_native_findings,
     overlays=[("lib.rs", "vk_c12.rs")],
+    # With alloc::vec::from_elem stubbed, Kani's C model of __rust_dealloc reports a size mismatch for vectors created by
+    # the stub's own call of from_elem_in on the UNCHANGED tree (not reproducible natively; a model artefact of stubbing an
+    # allocation entry point). Those C-level checks are ignored for this one harness; they do not end paths, so the
+    # harness's own bound assertion is still decided on every path.
+    per_harness={r"c12_q_tileset_declared_sizes": dict(ignore_checks=r"^__rust_dealloc\.")},
     bounds="largest single Vec::with_capacity request (recorded by a stub) for: a raw image cel with declared width x height over all "
-           "of u16 x u16 in a 24-byte chunk; an external-files chunk with entry count over all of u32; a tags chunk with count over all of u16",
+           "of u16 x u16 in a 24-byte chunk; an external-files chunk with entry count over all of u32; a tags chunk with count over all of u16; "
+           "every vec![0; n] request while a tileset chunk with symbolic tile count, tile size and compressed-length field is decoded",
     outside="PARTIAL: the sum of live allocations (peak heap) is not decided; reservations inside the inflater path "
             "(AseReader::unzip: compressed cels, tilesets, tilemaps) cannot be observed because real inflate is not encodable; "
             "vec![0; n] / resize sites (chunk payload buffer, cel table growth by layer index, frame tables) are bounded by argument "
